@@ -3,8 +3,22 @@ the quick-tier proof of the lines of a concatenation).  Same format as selftest/
 
 _CO = 'exactly_lib/impls/types/string_source/command_output/'
 _APP = 'ensures[appends exactly the text of the program'
+_CONCAT = 'exactly_lib/type_val_prims/string_source/impls/concat.py'
 
 MUTANTS = [
+    # --- the lines of a concatenation: the deductive proof of _lines_iter is part of the QUICK tier now
+    ('t14-c14-concat-pending-line-replaced', 'C14', _CONCAT,
+     "                        last_line_wo_ending_new_line = append_to_last_line_wo_ending_new_line(first_line)\n                    break",
+     "                        last_line_wo_ending_new_line = first_line\n                    break",
+     '_ConcatStringSourceContents._lines_iter : loop#2 invariant[entry]'),
+    ('t14-c14-concat-last-part-forgets-the-pending-line', 'C14', _CONCAT,
+     "                if last_line_wo_ending_new_line is not None:\n                    yield last_line_wo_ending_new_line",
+     "                pass",
+     '_ConcatStringSourceContents._lines_iter : '),
+    ('t14-c14-concat-complete-first-line-loses-the-pending-line', 'C14', _CONCAT,
+     "                        yield append_to_last_line_wo_ending_new_line(first_line)\n                        last_line_wo_ending_new_line = None",
+     "                        yield first_line\n                        last_line_wo_ending_new_line = None",
+     '_ConcatStringSourceContents._lines_iter : loop#2 invariant[entry]'),
     # --- the child process writes after what has been FLUSHED (write model of pyvc/textio.py)
     ('t14-c14-exit-ignored-output-not-flushed-before-child', 'C14', _CO + 'exit_ignored.py',
      "        output.flush()\n", "",
@@ -40,9 +54,26 @@ MUTANTS = [
      "        with self.as_file.open() as lines:\n            output.writelines(lines)",
      "        with self.as_file.open() as lines:\n            output.writelines(list(lines)[1:])",
      'ContentsViaFile.write_to : ensures[appends txt (output of the program)]'),
+    ('t14-c14-command-output-captures-the-other-channel', 'C14', _CO + 'string_source.py',
+     "        if output_channel_to_capture is ProcOutputFile.STDOUT:\n            return exit_ignored.StdoutWriter(",
+     "        if output_channel_to_capture is ProcOutputFile.STDERR:\n            return exit_ignored.StdoutWriter(",
+     '_contents : ensures[its text is what the program writes to the captured channel]'),
+    ('t14-c14-command-output-exit-code-never-ignored', 'C14', _CO + 'string_source.py',
+     "    if ignore_exit_code:\n        from . import exit_ignored",
+     "    if ignore_exit_code and output_channel_to_capture is ProcOutputFile.STDERR:\n        from . import exit_ignored",
+     '_contents : ensures[the exit code matters unless it is to be ignored]'),
     ('t14-c14-transformer-reads-nothing', 'C14',
      'exactly_lib/impls/types/string_transformer/impl/sources/transformed_by_program.py',
      "            stdin=file_ctx_managers.open_file(path_of_file_with_model, 'r'),",
      "            stdin=file_ctx_managers.dev_null(),",
      '_TransformationWriter.write : ' + _APP),
+]
+
+BENIGN = [
+    # the lines of a concatenation stay proved when the test for a final new-line is written differently
+    ('benign-t14-c14-concat-ended-by-new-line-written-with-endswith', 'C14', _CONCAT,
+     [("    return s != '' and s[-1] == '\\n'", "    return s.endswith('\\n')")]),
+    # a writer that flushes twice still appends exactly the program's text
+    ('benign-t14-c14-writer-flushes-twice', 'C14', _CO + 'exit_ignored.py',
+     [("        output.flush()\n", "        output.flush()\n        output.flush()\n")]),
 ]
